@@ -123,3 +123,66 @@ def dedupe_idioms(fn: ast.AST) -> List[str]:
             if k in tests.get(S, ()):
                 out.append("seen-container")
     return sorted(set(out))
+
+
+def _map_excludes_derived(fn: ast.AST, M: str) -> Optional[bool]:
+    """Is the local map `M` built over non-derived elements only?  True / False (built without the filter) / None."""
+    verdict = None
+    for n in ast.walk(fn):
+        if isinstance(n, (ast.Assign, ast.AnnAssign)):
+            tgt = n.targets[0] if isinstance(n, ast.Assign) else n.target
+            if isinstance(tgt, ast.Name) and tgt.id == M and n.value is not None:
+                comps = [c for c in ast.walk(n.value) if isinstance(c, ast.comprehension)]
+                for c in comps:
+                    conds = [u(canon(x)) for x in c.ifs]
+                    if any(t.startswith("not ") and t.endswith(".derived") for t in conds):
+                        verdict = True
+                    elif verdict is None:
+                        verdict = False
+        if isinstance(n, ast.For):
+            for st in ast.walk(n):
+                if isinstance(st, ast.Assign) and isinstance(st.targets[0], ast.Subscript) and isinstance(st.targets[0].value, ast.Name) and st.targets[0].value.id == M:
+                    held = [u(canon(a)) for a in positive_guard_atoms(fn, st, resolve=False)]
+                    if any(h.startswith("not ") and h.endswith(".derived") for h in held):
+                        verdict = True
+                    elif verdict is None:
+                        verdict = False
+    return verdict
+
+
+def base_descriptor_emissions(fn: ast.AST) -> List[Dict[str, object]]:
+    """Every place where the explicit-order base descriptors EMIT an (idx, id) pair (yield / append), with the evidence
+    that a derived element cannot be emitted there: a dominating `not element.derived`, or the idx taken from a map built
+    over non-derived elements."""
+    maps = set()
+    for n in ast.walk(fn):
+        if isinstance(n, (ast.Assign, ast.AnnAssign)):
+            tgt = n.targets[0] if isinstance(n, ast.Assign) else n.target
+            v = n.value
+            if isinstance(tgt, ast.Name) and v is not None and (isinstance(v, (ast.Dict, ast.DictComp)) or (isinstance(v, ast.Call) and u(v.func).split(".")[-1] in ("dict", "OrderedDict"))):
+                maps.add(tgt.id)
+    out = []
+    for n in ast.walk(fn):
+        emitted = None
+        if isinstance(n, ast.Yield) and n.value is not None:
+            emitted = n.value
+        elif isinstance(n, ast.Call) and isinstance(n.func, ast.Attribute) and n.func.attr == "append" and n.args and isinstance(n.args[0], ast.Tuple):
+            emitted = n.args[0]
+        if emitted is None:
+            continue
+        held = [u(canon(a)) for a in positive_guard_atoms(fn, n, resolve=False)]
+        guarded = any(h.startswith("not ") and h.endswith(".derived") for h in held)
+        used = {x.id for x in ast.walk(emitted) if isinstance(x, ast.Name) and x.id in maps}
+        # the loop the emission sits in may iterate a map
+        for lp in ast.walk(fn):
+            if isinstance(lp, ast.For) and any(x is n for x in ast.walk(lp)):
+                root = lp.iter.func.value if isinstance(lp.iter, ast.Call) and isinstance(lp.iter.func, ast.Attribute) else lp.iter
+                if isinstance(root, ast.Name) and root.id in maps:
+                    used.add(root.id)
+        # an idx assigned from a map just before: idx = M.pop(id) / M[id]
+        for st in ast.walk(fn):
+            if isinstance(st, ast.Assign) and isinstance(st.targets[0], ast.Name) and any(isinstance(x, ast.Name) and x.id == st.targets[0].id for x in ast.walk(emitted)):
+                used |= {x.id for x in ast.walk(st.value) if isinstance(x, ast.Name) and x.id in maps}
+        via = {M: _map_excludes_derived(fn, M) for M in sorted(used)}
+        out.append({"emits": u(emitted)[:60], "guarded": guarded, "maps": via})
+    return out
